@@ -480,6 +480,11 @@ def rewrite_where(rw, src, w0, w1, cfg, rule="R1-where"):
             continue
         keep.append((a, b))
     if len(keep) == len(parts):
+        # nothing dropped: the clause is kept, with the type instantiation applied to its bounds
+        orig = ",\n    ".join(src.text[src.toks[a].start:src.toks[b - 1].end] for a, b in keep)
+        kept = ",\n    ".join(_subst_text(src, src.text[src.toks[a].start:src.toks[b - 1].end], cfg) for a, b in keep)
+        if kept != orig:
+            rw.replace(w0, w1, "where\n    " + kept + ",\n", rule)
         return
     if not keep:
         rw.replace(w0, w1, "", rule)
